@@ -46,6 +46,11 @@ fn rand_item(rng: &mut Rng, allow_breaks: bool) -> Expr {
         2 => Expr::Int(-(rng.range(1, 999) as i32)),
         3 => Expr::Int(*rng.pick(&[32767, -32768, 10, -1])),
         4 => {
+            if rng.chance(1, 5) {
+                // a LONG that is exactly zero
+                let t = *rng.pick(&["(100000 - 100000)", "(65536 * 0)"]);
+                return num_lit(t, 0.0);
+            }
             let v = *rng.pick(&[100000i64, -123456, 2147483647, 65536]);
             num_lit(&format!("{}", v), v as f64)
         }
@@ -747,9 +752,17 @@ fn gen_file_program(rng: &mut Rng, exists: &mut BTreeSet<String>) -> Scenario {
                         rng.pick(&ex).to_string()
                     }
                 } else {
+                    // mostly a file that is not open; sometimes one that another handle is
+                    // writing to
                     let free: Vec<&&str> = NAMES
                         .iter()
-                        .filter(|n| !abs.open.values().any(|(_, m)| m == **n))
+                        .filter(|n| {
+                            !abs.open.values().any(|(_, m)| m == **n)
+                                || (rng.chance(1, 6)
+                                    && abs.open.values().any(|(md, m)| {
+                                        m == **n && (*md == Mode::Output || *md == Mode::Append)
+                                    }))
+                        })
                         .collect();
                     if free.is_empty() {
                         continue;
